@@ -30,6 +30,7 @@ GRIDS = {
     "12xh": dict(start="2021-01-01T00:00", end="2021-01-01T12:00", freq="h", mtu="h", tz=None),
     "12xh_d": dict(start="2021-01-01T00:00", end="2021-01-01T12:00", freq="h", mtu="d", tz=None),
     "12xh_min": dict(start="2021-01-01T00:00", end="2021-01-01T12:00", freq="h", mtu="min", tz=None),
+    "4xd_autumn": dict(start="2021-10-29T00:00", end="2021-11-02T00:00", freq="d", mtu="h", tz="CET"),
     "8x6h_d": dict(start="2021-01-01T00:00", end="2021-01-03T00:00", freq="6h", mtu="d", tz=None),
     "6x30min": dict(start="2021-01-01T00:00", end="2021-01-01T03:00", freq="30min", mtu="h", tz=None),
 }
